@@ -2,6 +2,8 @@ import FFVerif.Props.C05
 import FFVerif.Props.C05d
 import FFVerif.Props.C05e
 import FFVerif.Props.C06Def
+import FFVerif.Props.C05Nfold
+import FFVerif.Props.C05NfoldAsm
 import FFVerif.Pins.pinExtend
 import FFVerif.Pins.pinRemap
 import FFVerif.Pins.pinMergeAttrs
@@ -97,6 +99,23 @@ import FFVerif.Pins.pinMapIdentifiers
 #print axioms FFVerif.C05e.positions_before_merge
 #print axioms FFVerif.C05e.slips_counterexamples
 #print axioms FFVerif.C05e.idle_order_irrelevant
+#print axioms FFVerif.C05Nfold.piKron_isEigh
+#print axioms FFVerif.C05Nfold.piKron_segProp
+#print axioms FFVerif.C05Nfold.piKron_propagators_model
+#print axioms FFVerif.C05Nfold.extend_control_matrix_nfold_trace
+#print axioms FFVerif.C05Nfold.extend_control_matrix_nfold
+#print axioms FFVerif.C05Nfold.register_data_exist
+#print axioms FFVerif.C05Nfold.extend_filter_function_nfold
+#print axioms FFVerif.C05Nfold.extend_filter_function_nfold_model
+#print axioms FFVerif.C05Nfold.scaling_factor_eq
+#print axioms FFVerif.C05Nfold.extendRow_eq_from_scratch
+#print axioms FFVerif.C05Nfold.layout_card
+#print axioms FFVerif.C05Nfold.extendRow_eq_from_scratch_layout
+#print axioms FFVerif.C05Nfold.cm_row_congr
+#print axioms FFVerif.C05Nfold.extendControlMatrix_eq_from_scratch
+#print axioms FFVerif.C05Nfold.extendFilterFunction_eq_from_scratch
+#print axioms FFVerif.RegLayout.pauliBasis_regEquiv
+#print axioms FFVerif.RegLayout.equivalentPauli_regEquiv
 #print axioms FFVerif.Pins.pinExtend
 #print axioms FFVerif.Pins.pinRemap
 #print axioms FFVerif.Pins.pinMergeAttrs
